@@ -972,7 +972,7 @@ class Process:
         ret = []
         if not recursive:
             for pid, ppid in ppid_map.items():
-                if ppid == self.pid:
+                if ppid == self.pid and pid != self.pid:
                     try:
                         child = Process(pid)
                         # if child happens to be older than its parent
@@ -999,6 +999,9 @@ class Process:
                     continue
                 seen.add(pid)
                 for child_pid in reverse_ppid_map[pid]:
+                    if child_pid in seen:
+                        # cycle leading back to a process we started from
+                        continue
                     try:
                         child = Process(child_pid)
                         # if child happens to be older than its parent
